@@ -101,7 +101,10 @@ INFO = dict(
          "its probes (vector-level, object-level with tagged landmarks, accessors, Linear/MeanLinear twins), one "
          "eigen-witness post-processing, or one bookkeeping history (<= 12 ops, int/float/numpy-int/None forms, "
          "fractions away from ties, at exact ties, one ulp from ties and 1.0, orthonormalize_against_inplace, "
-         "synthetic (a third with power-of-two total) or data-built spectrum); distinct = distinct input; "
+         "synthetic (a third with power-of-two total) or data-built spectrum), one numpy-float fraction probe, one "
+         "LARGE-d model (n in 3..6, d in {999, 1000, 1001, 1024 (32x32 image), 1030, 1099, 1100, 2050}, built in "
+         "place: the blocked dot_inplace_right of the Gram path; oracle only) or one dot_inplace_left/right vs np.dot "
+         "comparison at block-boundary sizes; distinct = distinct input; "
          "non-trivial = at least 2 components",
     partial=["half (a) is a statement about EXACT factors (in any ordered field, e.g. the real eigen-decomposition); over Q "
              "alone the contract is satisfiable only for data with a rational eigen-decomposition (of the generated "
@@ -1595,6 +1598,128 @@ def run_npfloat_case(ctx, rng, idx):
                   op, dt, f, k0, nact, ncomp, sorted(counts)), rp)
 
 
+LARGE_D = [1001, 1024, 1030, 1099, 2050, 1000, 1100, 999]
+
+
+def run_large_case(ctx, rng, idx, given=None):
+    """many more features than samples, built IN PLACE from writeable float data: the Gram path of pca() forms the
+    components with the blocked in-place product dot_inplace_right (block size 1000), so d around and beyond a block
+    boundary matters (seeded C10-6: a short tail block was dropped).  Oracle only, float64, tolerance scaled by the
+    size of the numbers; vector- and image-backed (32 x 32 single-channel image = 1024 features)."""
+    from menpo.model import PCAModel, PCAVectorModel
+    d = LARGE_D[idx % len(LARGE_D)]
+    kind = "image" if d == 1024 and rng.random() < 0.7 else "vector"
+    n = rng.randint(3, 6)
+    centre = rng.random() < 0.6
+    if given is not None:
+        n, d, centre, kind = given["n"], given["d"], given["centre"], given["kind"]
+    for _ in range(20):
+        X = np.array(given["X"], dtype=float) if given is not None else \
+            np.array([[rng.randint(-16, 16) / 4.0 for _ in range(d)] for _ in range(n)])
+        Xc = X - X.mean(axis=0) if centre else X
+        ev = np.linalg.eigvalsh(Xc.dot(Xc.T))[::-1]
+        k = n - 1 if centre else n
+        if ev[k - 1] > 1e-2 * ev[0] and all(ev[i] - ev[i + 1] > 1e-3 * ev[0] for i in range(k - 1)):
+            break
+    else:
+        return
+    site = "C10/model/%s/gram/large-d" % kind
+    rp = dict(n=n, d=d, centre=centre, kind=kind, inplace=True, X_first_rows=[X[i, :4].tolist() for i in range(n)],
+              how="X = entries k/4 (see generator run_large_case, seed in the replay header); vector: "
+                  "PCAVectorModel(X.copy(), centre=centre, inplace=True); image: PCAModel([Image(x.reshape(1, 32, 32))...], "
+                  "centre=centre, inplace=True); then the identities of the property on the model", X=X.tolist())
+    ctx.count("large-d:%s:d=%d" % (kind, d))
+    ctx.case(("large", json.dumps([n, d, centre, kind, X[:, :8].tolist()])), nontrivial=True,
+             sample=dict(kind="large-d", n=n, d=d, centre=centre, backing=kind) if idx < 1 else None)
+    try:
+        if kind == "vector":
+            M = PCAVectorModel(X.copy(), centre=centre, inplace=True)
+            ad = Adapter(M, "vector")
+        else:
+            from menpo.image import Image
+            M = PCAModel([Image(x.reshape(1, 32, 32).copy()) for x in X], centre=centre, inplace=True)
+            ad = Adapter(M, "image", (1, 32, 32))
+        U = np.array(M.components, dtype=float)
+        l = np.array(M.eigenvalues, dtype=float)
+        mean = ad.mean()
+    except Exception as e:
+        ctx.fail(site, "raises", "building the model raised %s: %s" % (type(e).__name__, e), rp)
+        return
+    scale = max(1.0, float(ev[0]) / (n - 1))
+    tol = 1e-8 * (1.0 + scale)
+    ctx.check(U.shape == (k, d) and len(l) == k, site, "component-count",
+              "%d samples (centre=%s) in %d dimensions: %r components, %d eigenvalues" % (n, centre, d, U.shape, len(l)), rp)
+    if U.shape != (k, d) or len(l) != k:
+        return
+    ctx.check(maxabs(U.dot(U.T) - np.eye(k)) <= 1e-8, site, "not-orthonormal",
+              "components are not orthonormal: max |U U^T - I| = %.3g" % maxabs(U.dot(U.T) - np.eye(k)), rp)
+    ctx.check(all(l[i] > 0 for i in range(k)) and all(l[i] >= l[i + 1] for i in range(k - 1)), site, "spectrum-order",
+              "eigenvalues not positive and descending: %r" % (list(l),), rp)
+    Xm = X - mean
+    sv = (Xm.dot(U.T) ** 2).sum(axis=0) / (n - 1)
+    ctx.check(maxabs(sv - l) <= tol, site, "eigenvalue-not-sample-variance",
+              "eigenvalues %r, sample variance along the components %r" % (list(l), list(sv)), rp)
+    if centre:
+        ctx.check(maxabs(mean - X.mean(axis=0)) <= 1e-9 * (1 + maxabs(X)), site, "mean-not-sample-mean",
+                  "model mean differs from the sample mean", rp)
+    try:
+        worst = max(maxabs(ad.reconstruct(X[i]) - X[i]) for i in range(n))
+        w = np.array([rng.randint(-12, 12) / 4.0 for _ in range(k)])
+        back = ad.project(ad.instance(w))
+        x = np.array([rng.randint(-16, 16) / 2.0 for _ in range(d)])
+        po = ad.project_out(x)
+        r1 = ad.reconstruct(x)
+    except Exception as e:
+        ctx.fail(site, "raises", "reconstruct / project / instance / project_out raised %s: %s" % (type(e).__name__, e), rp)
+        return
+    ctx.check(worst <= 1e-8 * (1 + maxabs(X)), site, "training-not-reconstructed",
+              "with all components kept a training sample is off by %.3g" % worst, rp)
+    ctx.check(maxabs(back - w) <= 1e-8 * (1 + maxabs(w)), site, "project-instance",
+              "project(instance(w)) differs from w by %.3g" % maxabs(back - w), rp)
+    ctx.check(maxabs(U.dot(po)) <= 1e-8 * (1 + maxabs(x) * np.sqrt(d)), site, "residual-not-orthogonal",
+              "components . project_out(x) = %.3g" % maxabs(U.dot(po)), rp)
+    ctx.check(maxabs(r1 + po - x) <= 1e-8 * (1 + maxabs(x)), site, "decomposition",
+              "reconstruct(x) + project_out(x) differs from x by %.3g" % maxabs(r1 + po - x), rp)
+
+
+DOT_SIZES = [999, 1000, 1001, 1050, 1099, 1100, 1999, 2001, 2050, 2099]
+
+
+def run_dot_inplace_case(ctx, rng, idx):
+    """menpo.math.linalg.dot_inplace_left / dot_inplace_right (the blocked in-place products of the Gram path) against
+    np.dot at block-boundary sizes, default and small block sizes; integer-valued operands, so the products are exact.
+    A helper's contract, not a clause of the property text: a correspondence observation (directed search follows)."""
+    from menpo.math.linalg import dot_inplace_left, dot_inplace_right
+    if idx % 2 == 0:
+        n_big, bs = DOT_SIZES[(idx // 2) % len(DOT_SIZES)], None
+    else:
+        bs = rng.choice([20, 30, 50])
+        n_big = bs * rng.randint(1, 4) + rng.choice([0, 1, 2, bs // 10, bs // 10 + 1, bs - 1])
+    n_small = rng.randint(1, 4)
+    kk = rng.randint(n_small, n_small + 3)
+    kw = {} if bs is None else dict(block_size=bs)
+    rp = dict(n_big=n_big, n_small=n_small, k=kk, block_size=bs)
+    ctx.count("dot-inplace:block=%s" % (bs or 1000))
+    ctx.case(("dot", json.dumps([n_big, n_small, kk, bs, idx])), nontrivial=True)
+    try:
+        a = np.array([[float(rng.randint(-4, 4)) for _ in range(kk)] for _ in range(n_small)])
+        b = np.array([[float(rng.randint(-4, 4)) for _ in range(n_big)] for _ in range(kk)])
+        want = a.dot(b)
+        got = dot_inplace_right(a.copy(), b.copy(), **kw)
+        if got.shape != want.shape or not np.array_equal(got, want):
+            ctx.mismatch("linalg.dot_inplace_right", "differs from np.dot for a %r, b %r, block_size %r (first bad column %r)" % (
+                a.shape, b.shape, bs, int(np.argmax(np.abs(got - want).sum(axis=0) > 0)) if got.shape == want.shape else None), rp)
+        a2 = np.array([[float(rng.randint(-4, 4)) for _ in range(kk)] for _ in range(n_big)])
+        b2 = np.array([[float(rng.randint(-4, 4)) for _ in range(n_small)] for _ in range(kk)])
+        want2 = a2.dot(b2)
+        got2 = dot_inplace_left(a2.copy(), b2.copy(), **kw)
+        if got2.shape != want2.shape or not np.array_equal(got2, want2):
+            ctx.mismatch("linalg.dot_inplace_left", "differs from np.dot for a %r, b %r, block_size %r" % (
+                a2.shape, b2.shape, bs), rp)
+    except Exception as e:
+        ctx.mismatch("linalg.dot_inplace", "raised %s: %s" % (type(e).__name__, e), rp)
+
+
 def parse_state(txt):
     parts = [p.split() for p in txt.split("|")]
 
@@ -1808,6 +1933,10 @@ def explore(ctx, rng, n_models, n_post, n_books, with_model=True):
                  sample=dict(kind="book", spectrum=spec["eig0"], max_n_components=mx, ops=ops) if i < 2 else None)
     for i in range(max(1, n_books // 15)):
         run_npfloat_case(ctx, rng, i)
+    for i in range(max(2, n_models // 20)):
+        run_large_case(ctx, rng, i)
+    for i in range(max(4, n_models // 10)):
+        run_dot_inplace_case(ctx, rng, i)
     if with_model and lines:
         replies = common.run_driver(PROP, lines)
         cmp = dict(pca=compare_pca, lin=compare_lin, post=compare_post, book=compare_book, obj=compare_obj,
@@ -1863,7 +1992,9 @@ def replay(ctx, path):
     elif "post" in rp:
         run_post_case(ctx, rp["post"], "p0", lines, expect)
         ctx.case(("replay-post", json.dumps(rp["post"], sort_keys=True)))
-    elif "spec" in rp:
+    elif "X" in rp and "d" in rp:
+        run_large_case(ctx, rng, 0, given=rp)
+    elif "spec" in rp and "ops" in rp:
         mx = tuple(rp["max_n_components"]) if rp.get("max_n_components") else None
         ops = [(o, tuple(v)) for o, v in rp["ops"]]
         run_book_case(ctx, rp["spec"], mx, ops, "b0", lines, expect)
@@ -1872,7 +2003,7 @@ def replay(ctx, path):
         print("replay file carries no C10 case")
         return 2
     ctx.case(("replay", path))
-    replies = common.run_driver(PROP, lines)
+    replies = common.run_driver(PROP, lines) if lines else {}
     cmp = dict(pca=compare_pca, lin=compare_lin, post=compare_post, book=compare_book, obj=compare_obj,
                    white=compare_white)
     for cid, ex in expect.items():
